@@ -156,7 +156,64 @@ func c17(c *Ctx) {
 		for _, k := range ks {
 			sum.Add(sum, k)
 		}
-		switch r.Intn(11) {
+		switch r.Intn(12) {
+		case 11: // Select flattens array results whatever Go type carries them: []any, []string, []float64, [N]any, [][]…
+			if n == 0 {
+				continue
+			}
+			var rows, want []*D
+			for i := 0; i < n; i++ {
+				var tags []*D
+				for j, m := 0, r.Intn(3); j < m; j++ {
+					if it%2 == 0 {
+						tags = append(tags, h.Str(fmt.Sprintf("t%d", r.Intn(4))))
+					} else {
+						tags = append(tags, h.FloatD(float64(r.Intn(5))))
+					}
+				}
+				want = append(want, tags...)
+				var td *D
+				switch r.Intn(4) {
+				case 0:
+					td = h.SliceAny(tags...)
+				case 1:
+					if len(tags) > 0 {
+						td = h.TypedSlice(tags...)
+					} else {
+						td = h.SliceAny()
+					}
+				case 2:
+					if len(tags) > 0 {
+						td = &D{Tag: "ar", Ety: h.TypedSlice(tags...).Ety, Xs: tags}
+					} else {
+						td = h.SliceAny()
+					}
+				default:
+					td = &D{Tag: "ar", Ety: "any", Xs: tags}
+					if len(tags) == 0 {
+						td = h.SliceAny()
+					}
+				}
+				row := h.Obj("tags", td, "id", h.FloatD(float64(i)))
+				if r.Intn(3) == 0 {
+					row = toStruct(h.Obj("Tags", td, "Id", h.FloatD(float64(i))))
+				}
+				rows = append(rows, row)
+			}
+			doc2 := h.Obj("xs", h.SliceAny(rows...))
+			ec := c.AddEval(`$.xs.Select("$.tags")`, doc2, "select-flatten-typed", true, true)
+			if len(want) == 0 {
+				ec.Check = func(o h.Outcome) string {
+					if o.Class != "ok" || (o.Val.Tag != "sl" && o.Val.Tag != "nil") || len(o.Val.Xs) != 0 {
+						return "no results are required"
+					}
+					return ""
+				}
+			} else {
+				ec.Check = sameAbs(h.SliceAny(want...))
+			}
+			ec = c.AddEval(`$.xs.Select("$.tags").Count()`, doc2, "select-flatten-typed", true, true)
+			ec.Check = exactly(big.NewRat(int64(len(want)), 1))
 		case 10: // Select with a one-key sub-query over rows whose values are of every kind — numeral TEXT included:
 			// the result of running `$.code` on a row is the stored value (a string stays that string)
 			if n == 0 {
